@@ -1,3 +1,3 @@
 SPECIFICATION Spec
-INVARIANTS NeverTrustedWithoutBasis OffMeansSilent AllowListSuffices OrderIrrelevant
+INVARIANTS NeverTrustedWithoutBasis OffMeansSilent AllowListSuffices IssuerOnAllowListIsNoBasis OrderIrrelevant
 CHECK_DEADLOCK FALSE
